@@ -480,3 +480,42 @@ def run(chk):
     _childlink_rule(chk, prog)
     from rules import c05_boot
     c05_boot.run(chk, prog)
+    _dynown_rule(chk, prog)
+
+
+def _dynown_rule(chk, prog):
+    """A dynamic binding set in a fiber is visible in that fiber (and in children that inherit its table) only because
+    setdyn stores into the fiber's OWN environment table.  Reading goes through the prototype chain, writing must not
+    depend on it: a write skipped because the value is "already there" leaves a child that set the key to the value it
+    inherits without an entry of its own, and the parent's next rebinding shows through."""
+    rule = "C05-DYNOWN"
+    chk.rule(rule, "every returning path of setdyn (janet_core_setdyn, janet_setdyn) has stored into the environment table with janet_table_put")
+    n = 0
+    for (name, unit) in (("janet_core_setdyn", "corelib.c"), ("janet_setdyn", "capi.c")):
+        fn = prog.need_func(name, unit)
+        chk.analysed(fn)
+        n += 1
+        chk.instance(rule)
+
+        def transfer(st, x):
+            if x.k == "call" and x.callee in ("janet_table_put",) and x.args and any(
+                    y.k == "mem" and y.field in ("env", "top_dyns") for y in x.args[0].walk()):
+                return st | {"put"}
+            return st
+        IN, OUT, T = flow.forward_paths(fn, frozenset(), transfer)
+        bad = None
+        for b, kind in flow.exits(fn):
+            if kind != "return" or b.id not in OUT:
+                continue
+            for ps in OUT[b.id]:
+                if "put" not in ps:
+                    bad = b
+        if bad is None:
+            chk.ok(rule, "%s always stores into the environment table" % name)
+        else:
+            last = bad.elems[-1] if bad.elems else fn
+            chk.violation(rule, unit, name, "store", last.loc,
+                          "%s can return (near %s) without janet_table_put on the fiber's environment: the binding is then whatever the "
+                          "prototype chain shows - a child that sets a key to the value it currently inherits keeps no entry of its own and "
+                          "sees the parent's later rebinding" % (name, last.loc))
+    chk.floor(rule, 2, n)
